@@ -139,7 +139,7 @@ Theorem nack_response s al ssrc pairs : RInv s al -> pairs_ok pairs ->
               end
           end)).
 Proof.
-  intros [HS HF] Hp. simpl. destruct (amap_find ssrc (rs_streams s)) as [hid|]; [|reflexivity].
+  intros [HS HF] Hp. unfold rstep. destruct (amap_find ssrc (rs_streams s)) as [hid|]; [|reflexivity].
   destruct (nth_error (rs_handles s) hid) as [hd|] eqn:Eh; [|reflexivity].
   destruct (Forall2_nth _ _ _ _ _ HF Eh) as (a & Ea & HI). rewrite Ea.
   unfold resend, nack_answer. f_equal. f_equal. apply flat_map_ext_in. intros seq Hin.
